@@ -39,8 +39,10 @@ func validateNoOpenTokens(token *token) error {
 func (p *expressionPostFixerImpl) ConvertToPostfix(infixTokens []*token) ([]*Operation, error) {
 	var result []*Operation
 	// surround the whole thing with brackets
-	var opStack = []*token{{TokenType: openBracket}}
-	var tokens = append(infixTokens, &token{TokenType: closeBracket})
+	surroundingOpen := &token{TokenType: openBracket}
+	surroundingClose := &token{TokenType: closeBracket}
+	var opStack = []*token{surroundingOpen}
+	var tokens = append(infixTokens, surroundingClose)
 
 	for _, currentToken := range tokens {
 		log.Debugf("postfix processing currentToken %v", currentToken.toString(true))
@@ -103,7 +105,8 @@ func (p *expressionPostFixerImpl) ConvertToPostfix(infixTokens []*token) ([]*Ope
 
 				opStack, result = popOpToResult(opStack, result)
 			}
-			if len(opStack) == 0 {
+			if len(opStack) == 0 || (opStack[len(opStack)-1] == surroundingOpen && currentToken != surroundingClose) {
+				// (only the bracket added at the end closes the one added at the start)
 				return nil, errors.New("bad expression, got close brackets without matching opening bracket")
 			}
 			// now we should have ( as the last element on the opStack, get rid of it
